@@ -3,7 +3,7 @@ Import ListNotations.
 From BB Require Import BN Brute SpaceFacts TrapFacts PercolateFacts AttractorFacts Diagram Invariants Checks Filter
   Strict PetriNet Control Meta FilterFacts PetriNetFacts TrappistFacts DiagramStruct DiagramSem1 DiagramCache
   DiagramDepth DiagramComplete Termination ControlFacts MetaFacts Candidates StrictFacts MinExpandFacts CandidatesFacts SymbolicTest SymbolicTestFacts Signed ReductionFacts ControlFacts2 Main Blocks BlocksFacts ObsFacts OwnerFacts CandidatesTerm
-  PartialOwner BlockMath BlockComplete ASeeds ASeedsFacts LogChecks SkipRule SkipRuleFacts Names NamesFacts Perm PermFacts SCC SCCFacts SCCStruct ControlFacts3 SCCTerm FilterSym."""
+  PartialOwner BlockMath BlockComplete ASeeds ASeedsFacts LogChecks SkipRule SkipRuleFacts Names NamesFacts Perm PermFacts SCC SCCFacts SCCStruct ControlFacts3 SCCTerm FilterSym Main2 StrategyFacts ControlFacts4."""
 
 EX_NET = """
 (* non-vacuity: two bistable switches; x0'=x1, x1'=x0, x2'=x3, x3'=x2 *)
@@ -54,7 +54,8 @@ clause fails for it: KNOWN FINDING D15, formally D15_refuted (two different expa
            ("nfvs_log_check_exact", "nfvs_log_ok_b_spec", "the run-time check of the NFVS tape is exact"),
            ("scc_strategy_refuted", "D15_refuted", "KNOWN FINDING D15: in the diagram the source-SCC strategy builds for a 6-variable network two expanded nodes own the same attractor"),
            ("scc_witness_facts", "d15_facts", None),
-           ("filter_with_symbolic_test_exact", "compute_attractors_sym_exact", "the exactness of the filter holds with the real reachability procedure, for every heuristic tape")],
+           ("filter_with_symbolic_test_exact", "compute_attractors_sym_exact", "the exactness of the filter holds with the real reachability procedure, for every heuristic tape"),
+           ("node_seeds_exact", "node_seeds_exact", "one node, end to end: NFVS -> candidate pipeline (every option, limit, tape) -> filter with the real reachability procedure = exactly one seed per attractor of the node")],
  examples=EX_NET + """
 Example C01_example_attractors : length (attractors_b ex_sw) = 4.
 Proof. vm_compute. reflexivity. Qed.
@@ -190,7 +191,9 @@ forces it, the final trap space meets the target and every minimal trap space in
            ("percolation_of_trap_is_nested_trap", "percolate_b_trap", "each step of a succession is a trap space nested in the previous one"),
            ("succession_control_sound", "succession_control_sound", "C06 end to end"),
            ("target_expansion_prepares", "target_expansion_TargetExpanded", "the target-directed expansion of a fresh diagram establishes the hypotheses"),
-           ("chain_follows_path", "chain_follows_path", "the accumulated assumptions are the node spaces along the path")],
+           ("chain_follows_path", "chain_follows_path", "the accumulated assumptions are the node spaces along the path"),
+           ("skip_feedforward_sound", "succession_control_ff_sound", "with skip_feedforward_successions the reported interventions are a subset, so the property still holds"),
+           ("skip_feedforward_subset", "succession_control_ff_incl", None)],
  examples="")
 
 SPEC["C07"] = dict(title="Control output is complete, minimal and honours the user's constraints", comment="""
@@ -203,7 +206,10 @@ expansion expands.""",
            ("find_drivers_minimal", "find_drivers_minimal", "no reported set strictly inside another"),
            ("subsets_of_size_spec", "subsets_of_size_spec", None),
            ("successions_spec", "successions_spec", None), ("successions_nodup", "successions_nodup", None),
-           ("target_expansion_post", "target_expansion_post", None), ("reaches_lava_spec", "reaches_lava_spec", None)],
+           ("target_expansion_post", "target_expansion_post", None), ("reaches_lava_spec", "reaches_lava_spec", None),
+           ("skip_feedforward_only_removes", "ff_filter_incl", "skip_feedforward_successions: the filter only removes successions"),
+           ("skip_feedforward_covers", "ff_filter_covers", "every removed succession is subsumed by a kept one with a weaker signature"),
+           ("skip_feedforward_antichain", "ff_filter_antichain", "kept signatures are pairwise incomparable")],
  examples="")
 
 SPEC["C08"] = dict(title="Attractor candidates cover every attractor under every option and limit setting", comment="""
@@ -299,7 +305,8 @@ attractors, which makes it agree with the default method.""",
            ("symbolic_test_none", "symbolic_test_none", "... or None exactly when an avoid state is reachable, for every heuristic tape"),
            ("symbolic_test_meets_spec", "symbolic_test_meets_spec", None),
            ("filter_with_symbolic_test_agrees", "compute_attractors_sym_agrees", "the filter run with the model of symbolic_attractor_test (any heuristic tape) returns the same seeds in the same order and the same sets"),
-           ("filter_with_symbolic_test_exact", "compute_attractors_sym_exact", "so the sets it returns are exactly the attractors")],
+           ("filter_with_symbolic_test_exact", "compute_attractors_sym_exact", "so the sets it returns are exactly the attractors"),
+           ("node_sets_exact", "node_seeds_exact", "... and the sets are those attractors")],
  examples="")
 
 SPEC["C13"] = dict(title="Every operation terminates within bounded work", comment="""
@@ -361,7 +368,13 @@ PARTIAL: that Python's pickle and AEON's text round trip reproduce the fields is
 running two real diagrams side by side.""",
  theorems=[("reclaim_transparent", "reclaim_transparent", None), ("step_respects_observation", "step_obs_eq", None), ("reclaim_obs_eq", "reclaim_obs_eq", None),
            ("reclaim_keeps_wellformed", "reclaim_SWF", None), ("reclaim_CacheOK", "reclaim_CacheOK", None),
-           ("reclaim_extends", "reclaim_extends", None), ("step_extends", "step_extends", None)],
+           ("reclaim_extends", "reclaim_extends", None), ("step_extends", "step_extends", None),
+           ("block_expansion_blind_to_reclaim", "expand_block_obs_eq", "the strategies that are not single ops: run on observationally equal diagrams they give equal results and observationally equal diagrams"),
+           ("aseeds_expansion_blind_to_reclaim", "expand_aseeds_obs_eq", None),
+           ("scc_expansion_blind_to_reclaim", "expand_scc_obs_eq", None),
+           ("block_after_reclaim", "expand_block_after_reclaim", None),
+           ("aseeds_after_reclaim", "expand_aseeds_after_reclaim", None),
+           ("scc_after_reclaim", "expand_scc_after_reclaim", None)],
  examples="")
 
 SPEC["C17"] = dict(title="Results do not depend on how the network is written down", comment="""
@@ -437,5 +450,7 @@ PARTIAL: summary() is not modelled; it is decided by recomputation in the run.""
  theorems=[("find_node_exact", "find_node_exact", None), ("find_node_none", "find_node_none", None), ("step_extends", "step_extends", "ids and spaces are stable"),
            ("depth_longest_path_all_histories", "run_DepthOK_all", None), ("depth_longest_path", "depth_longest_path", None),
            ("depth_is_max", "depth_is_max", None), ("depth_attained", "depth_attained", None), ("raise_depth_spec", "raise_depth_spec", None),
-           ("space_key_inj", "space_key_inj", None), ("is_subgraph_spec", "is_subgraph_b_spec", "node-set and edge-set inclusion")],
+           ("space_key_inj", "space_key_inj", None), ("is_subgraph_spec", "is_subgraph_b_spec", "node-set and edge-set inclusion"),
+           ("block_expansion_depth", "expand_block_DepthOK", "depth = longest root path after block expansion (source shortcut included)"),
+           ("aseeds_expansion_depth", "expand_aseeds_DepthOK", None)],
  examples="")
